@@ -62,6 +62,8 @@ func (w *World) resolve(cs *clientState, op Op) uint64 {
 		return cs.maxSeen + uint64(op.Rev.N)
 	case "hdr":
 		return cs.lastHdr
+	case "hdrplus":
+		return cs.lastHdr + uint64(op.Rev.N)
 	case "hdrminus":
 		if cs.lastHdr > uint64(op.Rev.N) {
 			return cs.lastHdr - uint64(op.Rev.N)
